@@ -118,6 +118,16 @@ def _chunked(c1, c2, nchunks, lf_only, upper, lead0, ext, trailer, trunc, cuts):
     return conn.pos == full and not conn.closed()
 
 
+def _hex_sizes(n_i, upper, lead0, ext):
+    """Chunk sizes that need hex LETTERS (10-255 bytes), written in lower or upper case."""
+    n = pick([10, 11, 15, 26, 171, 255], n_i)
+    body = bytes(range(n % 251, n % 251 + 1)) * n
+    wire = b'HTTP/1.1 200 OK\r\nTransfer-Encoding: chunked\r\n\r\n' + _hexsize(n, upper, lead0) + (b';name=value' if ext else b'') + b'\r\n' + body + b'\r\n0\r\n\r\n'
+    kind, status, got, conn = _read(wire, [])
+    hit('hex')
+    return kind == 'ok' and got == body and conn.pos == len(wire)
+
+
 _TE = [b'chunked', b'Chunked', b'CHUNKED', b'  chunked  ', b'chunKed']
 
 
@@ -400,6 +410,10 @@ HARNESSES = [
       doc='chunked framing (0-2 chunks of symbolic bytes, hex sizes upper/lower/zero-padded, chunk extension, trailer, CRLF or LF) truncated '
           'at EVERY point and read in symbolic cuts: body == concatenated chunk data, reported bytes == wire bytes, a stream cut before the '
           'last-chunk line is complete is an error - never a shorter success'),
+    H('hex_sizes', '_hex_sizes', 'n_i: int, upper: bool, lead0: bool, ext: bool', pre=['0 <= n_i <= 5'], timeout={'quick': 120, 'thorough': 300},
+      samples=[(3, True, False, True), (0, False, True, False)], need=['hex'],
+      funcs=['wpull/protocol/http/chunked.py:ChunkedTransferReader.read_chunk_header'],
+      doc='chunk sizes 10..255 (hex digits a-f / A-F, zero-padded, with extension): accepted in either letter case'),
     H('te_spelling', '_te_spelling', 'te_i: int, body: bytes, ' + _CUTS, pre=['0 <= te_i < %d and len(body) <= 2 and len(cuts) <= 1' % len(_TE)],
       timeout={'quick': 200, 'thorough': 400}, samples=[(0, b'ab', []), (1, b'a', [1])], need=['te'],
       funcs=['wpull/protocol/http/stream.py:Stream.get_read_strategy'],
